@@ -325,6 +325,8 @@ def run(ctx):
             ctx.ob('C13.d', f'apply_{g}:exponent={e}', ok, '' if ok else f'for exponent {e} {res} (the gate family requires `{want}`)', ch.mod.rel,
                    ch.methods[f'apply_{g}'].lineno, construct=f'apply_{g}:{e}')
 
+    _structure_rules(ctx, repo)
+
 
 class _Touched(Exception):
     pass
@@ -378,3 +380,97 @@ def _classify(ci, mname, args):
     except fdx.Unsupported:
         return 'acts'
     return 'identity'
+
+
+
+def _structure_rules(ctx, repo):
+    """C13.e / C13.f - permutation discipline of the stabilizer representations."""
+    ctx.decided += ['C13.e StabilizerStateChForm.copy / reindex carry every array of the state and permute every one of them in the same direction',
+                    'C13.f _pad_tableau places the gate tableau at the axes in the order given (no sorting / de-duplication of the index arrays)']
+    ch = repo.cls(CH)
+    rel = ch.mod.rel
+    init = ch.methods.get('__init__')
+    if init is None:
+        raise AnalysisError('StabilizerStateChForm.__init__ vanished')
+    ndim = {}
+    for st in init.body:
+        tgt = val = None
+        if isinstance(st, ast.Assign) and len(st.targets) == 1:
+            tgt, val = st.targets[0], st.value
+        elif isinstance(st, ast.AnnAssign) and st.value is not None:
+            tgt, val = st.target, st.value
+        if isinstance(tgt, ast.Attribute) and isinstance(tgt.value, ast.Name) and tgt.value.id == 'self' and tgt.attr != 'n':
+            if isinstance(val, ast.Call) and call_name(val) == 'eye':
+                ndim[tgt.attr] = 2
+            elif isinstance(val, ast.Call) and call_name(val) in ('zeros', 'ones'):
+                ndim[tgt.attr] = 2 if val.args and isinstance(val.args[0], ast.Tuple) and len(val.args[0].elts) == 2 else 1
+            else:
+                ndim[tgt.attr] = 0
+    if len(ndim) < 6:
+        raise AnalysisError(f'StabilizerStateChForm.__init__: expected the CH-form arrays, found {sorted(ndim)}')
+    ctx.rule('C13.e', 'StabilizerStateChForm.copy and .reindex assign every state array of __init__ on the new object; reindex gathers every array with the '
+             'given axes (matrices on both dimensions) - mixing gather and scatter permutes some components by the inverse permutation', floor=14, style='COH')
+    for mn in ('copy', 'reindex'):
+        fn = ch.methods.get(mn)
+        if fn is None:
+            raise AnalysisError(f'StabilizerStateChForm.{mn} vanished')
+        new_names = {t.id for st in fn.body if isinstance(st, ast.Assign) and isinstance(st.value, ast.Call) and call_name(st.value) in (ch.name, 'type')
+                     for t in st.targets if isinstance(t, ast.Name)}
+        assigned = {}
+        scattered = {}
+        for st in ast.walk(fn):
+            if isinstance(st, ast.Assign) and len(st.targets) == 1:
+                t = st.targets[0]
+                if isinstance(t, ast.Attribute) and isinstance(t.value, ast.Name) and t.value.id in new_names:
+                    assigned[t.attr] = st.value
+                if isinstance(t, ast.Subscript) and isinstance(t.value, ast.Attribute) and isinstance(t.value.value, ast.Name) and t.value.value.id in new_names:
+                    scattered[t.value.attr] = st
+        ax = fn.args.args[1].arg if mn == 'reindex' and len(fn.args.args) > 1 else None
+        for f, d in sorted(ndim.items()):
+            key = f'{ch.qual}.{mn}:{f}'
+            if f in scattered and f not in assigned:
+                ctx.ob('C13.e', key, False, f'{mn} writes {f} by scattering (new.{f}[{ax}] = self.{f}): that applies the inverse of the permutation the other arrays get', rel, scattered[f].lineno)
+                continue
+            if f not in assigned:
+                ctx.ob('C13.e', key, False, f'{mn} does not carry {f} to the new state (it keeps the value of a fresh |0..0>)', rel, fn.lineno)
+                continue
+            v = assigned[f]
+            src = ast.unparse(v)
+            ok = f'self.{f}' in src
+            msg = '' if ok else f'{mn} assigns {f} from something other than self.{f}'
+            if ok and mn == 'reindex' and d > 0:
+                want1 = f'self.{f}[{ax}]'
+                if d == 1:
+                    ok = src == want1
+                else:
+                    ok = src in (f'self.{f}[{ax}][:, {ax}]', f'self.{f}[np.ix_({ax}, {ax})]', f'self.{f}[:, {ax}][{ax}]')
+                msg = '' if ok else f'reindex does not gather {f} (a {d}-dimensional array) by `{ax}` on ' + ('its dimension' if d == 1 else 'both dimensions') + f': {src}'
+            ctx.ob('C13.e', key, ok, msg, rel, v.lineno)
+
+    ctx.rule('C13.f', '_pad_tableau: every index expression derived from `axes` is built by order-preserving operations only (asarray / array / concatenate / arithmetic); '
+             'sorting or de-duplicating (np.unique, sorted, set, np.sort) would attach the gate\'s i-th qubit to the wrong axis', floor=3, style='TNT')
+    cg = repo.module('cirq-core/cirq/ops/clifford_gate.py')
+    fn = cg.defs.get('_pad_tableau')
+    if fn is None:
+        raise AnalysisError('_pad_tableau vanished')
+    ORDER_BREAKING = {'unique', 'sorted', 'set', 'sort', 'argsort', 'frozenset', 'flip', 'reversed'}
+    derived = {'axes': []}
+    for st in fn.body:
+        if isinstance(st, ast.Assign) and len(st.targets) == 1 and isinstance(st.targets[0], ast.Name):
+            names = {n.id for n in ast.walk(st.value) if isinstance(n, ast.Name)}
+            if names & set(derived):
+                calls = [call_name(c) for c in ast.walk(st.value) if isinstance(c, ast.Call)]
+                inherited = [b for nm in names & set(derived) for b in derived[nm]]
+                derived[st.targets[0].id] = inherited + [c for c in calls if c in ORDER_BREAKING]
+    n_idx = 0
+    for st in ast.walk(fn):
+        if isinstance(st, ast.Subscript) and isinstance(st.ctx, ast.Store):
+            names = {n.id for n in ast.walk(st.slice) if isinstance(n, ast.Name)} & set(derived)
+            if not names:
+                continue
+            n_idx += 1
+            breaking = sorted({b for nm in names for b in derived[nm]} | {call_name(c) for c in ast.walk(st.slice) if isinstance(c, ast.Call) and call_name(c) in ORDER_BREAKING})
+            ctx.ob('C13.f', f'cirq.ops.clifford_gate._pad_tableau:{ast.unparse(st.value)}', not breaking,
+                   '' if not breaking else f'the index of {ast.unparse(st.value)} passes through {breaking}: the order of `axes` is lost', cg.rel, st.lineno)
+    if n_idx == 0:
+        raise AnalysisError('_pad_tableau: no store indexed by the axes found')
